@@ -110,7 +110,9 @@ def client_login_preamble(ctx, sn, path, P):
     if not a['decode_pk']:
         return None
     params = Sym('params')
-    cx = App('unwrap_or', ('fld', params, 'context'), Bytes(b''))
+    cx = ident_choice(path, ('fld', params, 'context'), Bytes(b''))
+    if cx is None:
+        return None
     pkstar = okval(App('KeGroup::deserialize_pk', a['decode_pk'][0][1]))
     # client static key: public key of the envelope-derived secret
     csk = None
@@ -137,7 +139,9 @@ def client_login_preamble(ctx, sn, path, P):
 def server_login_preamble(ctx, sn, path, P):
     """RFC preamble instantiated with the server's view (ServerLogin::start), or None"""
     params = Sym('params')
-    cx = App('unwrap_or', ('fld', params, 'context'), Bytes(b''))
+    cx = ident_choice(path, ('fld', params, 'context'), Bytes(b''))
+    if cx is None:
+        return None
     res = fields(path.payload)
     msg = res.get('message')
     if msg is None:
@@ -251,9 +255,17 @@ def group_codec_purity(ctx, rep, rule, sn):
                         x = e[2][0]
                         if subterms(x, lambda t: t[0] == 'app' and t[1] in BYTE_OPS):
                             partial.append(show(x)[:80])
-            good = not bad and uses and not partial
+            # a decoder that *normalises* its input (e.g. clamping) is canonical only if it also tests that the normal form equals the input
+            norm_guard = True
+            if name.startswith('deserialize') and val is not None and val != Sym(pname):
+                normalisers = subterms(val, lambda t: t[0] == 'app' and ('clamp' in t[1] or 'reduce' in t[1] or 'from_bytes_mod_order' in t[1]) and mentions(t, Sym(pname)))
+                for nf in normalisers:
+                    fixed = any(e[0] == 'assume' and e[2] == 1 and e[1][0] == 'app' and e[1][1] in ('eq', 'ct_eq') and nf in e[1][2] and Sym(pname) in e[1][2] for e in p.events)
+                    norm_guard = norm_guard and fixed
+            good = not bad and uses and not partial and norm_guard
             n += int(good)
             rep.ob(rule, 'KeGroup::%s is the dependency codec applied to the whole argument, without byte-level edits' % name, good,
-                   'result %s ; byte-level operations: %s %s' % (show(val)[:200], [show(b)[:60] for b in bad[:3]], partial[:2]), w, sn,
+                   'result %s ; byte-level operations: %s %s%s' % (show(val)[:200], [show(b)[:60] for b in bad[:3]], partial[:2],
+                                                                    '' if norm_guard else ' ; the decoder normalises its input without testing that the normal form equals the input (several encodings of one value)'), w, sn,
                    sample='%s(%s) = %s' % (name, pname, show(val)[:120]))
     return n
